@@ -351,3 +351,39 @@ func HarnessExpiresForms() {
 		vAssert(life == dflt, "c03.default-lifetime-not-applied")
 	}
 }
+
+// HarnessCCBadArgument: a max-age whose argument is not a plain number (quotes, signs,
+// blanks, letters), alone or next to other directives: never a panic; a directive that
+// forbids reuse elsewhere in the header is still honoured; the lifetime never exceeds a
+// well-formed max-age given elsewhere in the header.
+func HarnessCCBadArgument() {
+	args := []string{"\"", "\"5\"", "x", "5x", "", " ", "-", symStringN(1), symStringN(2)}
+	arg := args[symChoice(len(args))]
+	for i := 0; i < len(arg); i++ {
+		c := arg[i]
+		vAssume(c < 0x80 && c != ',')
+	}
+	pre := []string{"", "no-store, ", "max-age=60, "}[symChoice(3)]
+	post := []string{"", ", private", ", max-age=60"}[symChoice(3)]
+	s := pre + "max-age=" + arg + post
+	forbids, age, hasAge := refCacheControl(s)
+	var hd *HeaderDirectives
+	vNoPanic(func() { hd = ParseHeaderDirective(http.Header{"Cache-Control": {s}}) }, "c16.parse-header-directive-panic")
+	if hd == nil {
+		return
+	}
+	vReach("parsed")
+	storable := hd.ShouldCache(false)
+	if forbids {
+		vReach("forbids")
+		vAssert(!storable, "c04.forbidding-directive-stored")
+		return
+	}
+	if storable && hasAge {
+		vReach("max-age-elsewhere")
+		vClockFreeze(true)
+		now := time.Now()
+		exp := hd.GetExpiresOrDefault(false, time.Hour)
+		vAssert(!exp.After(now.Add(time.Duration(age)*time.Second)), "c03.lifetime-exceeds-max-age")
+	}
+}
